@@ -58,7 +58,63 @@ func genAround(r *hx.RNG) oracle.Val {
 	return oracle.Val{Form: oracle.Finite, Neg: r.Bool(), Coef: a, Exp: -k}
 }
 
+// c14Sizes: one conversion per run each at sizes where a size computed in 32 bits, or a helper with a built-in limit,
+// gives way: SetInt of an integer of more than 430 000 digits (1.4 million bits) and Rat of a value with more than a
+// million digits behind the point. Both take seconds on the unchanged tree.
+func c14Sizes(c *hx.Ctx, r *hx.RNG, which int) {
+	mode := r.Mode()
+	if which == 0 {
+		n := r.Range(430000, 470000)
+		b := new(big.Int).Add(oracle.Pow10(int64(n)), big.NewInt(int64(r.Range(1, 99999))))
+		if r.Bool() {
+			b.Neg(b)
+		}
+		p := int64([]int{0, 5, 40, n + 1}[r.Intn(4)])
+		what := fmt.Sprintf("SetInt(+-(10^%d + small)) prec=%d mode=%s", n, p, oracle.ModeNames[mode])
+		c.Note(what)
+		z := newRecv(p, mode)
+		pi := hx.Try(func() { z.SetInt(b) })
+		c.Eval(hx.HashStr(what), true, "SetInt/430000-digits")
+		if pi != nil {
+			c.Violate("panic", fmt.Sprintf("%s: %s panic %q at %s", what, pi.Class, pi.Text, pi.Stack), "")
+			return
+		}
+		got := hx.Snapshot(z)
+		pe := p
+		if p == 0 {
+			pe = int64(got.Prec)
+		}
+		valueVerdict(c, what, oracle.Ident(valOfBig(b, 0)), got, pe, mode, "")
+		return
+	}
+	k := int64(r.Range(1000001, 1100000))
+	v := r.Finite(r.Range(1, 20), 0)
+	v.Exp = -k
+	what := fmt.Sprintf("Rat of %s", v.Full())
+	c.Note(what)
+	x := hx.Mk(v, digitsOf(v), mode)
+	var q *big.Rat
+	var acc decimal.Accuracy
+	pi := hx.Try(func() { q, acc = x.Rat(nil) })
+	c.Eval(hx.HashStr(what), true, "Rat/million-digit-fraction")
+	if pi != nil {
+		c.Violate("panic", fmt.Sprintf("%s: %s panic %q at %s", what, pi.Class, pi.Text, pi.Stack), "")
+		return
+	}
+	want := new(big.Rat).SetFrac(v.Coef, oracle.Pow10(k))
+	if v.Neg {
+		want.Neg(want)
+	}
+	if q == nil || q.Cmp(want) != 0 || acc != decimal.Exact {
+		c.Violate("Rat", fmt.Sprintf("%s: result differs from the exact value (accuracy %v)", what, acc), "")
+	}
+}
+
 func c14Case(c *hx.Ctx, r *hx.RNG, idx int64) {
+	if m := idx % 4000000; m == 13 || m == 45 { // (same shard, one after the other)
+		c14Sizes(c, r, map[int64]int{13: 0, 45: 1}[m])
+		return
+	}
 	if r.Chance(60) {
 		c14Getters(c, r)
 		return
